@@ -65,6 +65,9 @@ func hasLimit(g *Graph) bool {
 }
 
 func (p *Proj) recovers(e *ErrSpec) bool {
+	if e.Typed && p.As[2] != e.TCode {
+		return false
+	}
 	switch e.Base {
 	case "s0":
 		return p.Is[0]
@@ -226,6 +229,12 @@ func tagsOf(c *Case, o *Obs) []string {
 					}
 					if n.Err != nil {
 						faults[fmt.Sprintf("err-%s-w%d", n.Err.Base[:1], n.Err.Wraps)]++
+						if n.Err.Nested {
+							faults["err-nested-run"]++
+						}
+						if n.Err.Typed {
+							faults["err-typed-wrapper"]++
+						}
 					}
 				case "sub":
 					walk(n.Sub)
